@@ -998,4 +998,171 @@ theorem C06_empty_inner_example :
     ∧ (XPath.getItem 80 ordersEmptyInner ['e', '[', 'i', '=', '1', ']', '/', 'q']).2 = .error .IndexError := by
   decide +kernel
 
+/-! ### non-vacuity: other spellings, `first` on chained selections, hidden lists -/
+
+theorem plainKey_a : PlainKey ['a'] := ⟨by decide, by decide, by decide⟩
+theorem plainKey_w : PlainKey ['w'] := ⟨by decide, by decide, by decide⟩
+theorem plainLit_1' : PlainLit ['1'] := plainLit_1
+
+/-- `a[-1]` spells the position `/a[1]` of the record list of `deep` (a two-element list) -/
+def deepToks : List Str := [['a'] ++ bracket (IdxSp.neg 1).text]
+example : deepToks = [['a', '[', '-', '1', ']']] := by decide
+theorem deep_spelled : Sel3Spells deepToks deep [.key ['a'], .idx 1] (.list .plain recsList) :=
+  .keyIdx ((IdxSp.neg 1).keyIdxTok plainKey_a) plainKey_a rfl (by decide) rfl (.nil _)
+
+/-- `C06_pred_spelled`: the tokens `a[-1]`, `[k='1']`, `f`, and `a[-1]`, `k[text()='1']`, `..`, `f` -/
+example : ∀ tail ∈ [[bracket (['k'] ++ ['='] ++ ['\'', '1', '\'']), ['f']],
+                    [['k'] ++ bracket (sTextFn ++ ['='] ++ ['\'', '1', '\'']), ['.', '.'], ['f']]],
+    ∃ r, findD 40 deep [] false true (deepToks ++ tail) (.at []) true slash = .ok (deep, r) ∧
+      r.value = .list .n0 [.str ['x'], .str ['y']] := by
+  intro tail htail
+  obtain ⟨r, hr, hf, hv⟩ := (C06_pred_spelled deep true deepToks _ _ recsList ['k'] ['f'] ['='] _ _ ['1'] deep_spelled fieldKey_k
+    plainKey_f .eq1 (.sq ['1']) plainLit_1 (by decide) (by decide) 40 (by decide)).1 tail htail
+  rw [show selectWhere ['k'] ['f'] (condTest ['=', '='] (.str ['1'])) recsList = [.str ['x'], .str ['y']] by decide] at hf hv
+  exact ⟨r, hr, hv (by simpa using hf)⟩
+
+/-- the spelling `a/[0+1]` (relative, the index a step of its own, written as a sum) -/
+def deepSteps : List StepSp := [.key ['a'], .idx (.plus 0 1) true]
+example : renderSp .rel deepSteps = ['a', '/', '[', '0', '+', '1', ']'] := by decide
+example : renderSp .two deepSteps = ['/', '/', 'a', '/', '[', '0', '+', '1', ']'] := by decide
+
+/-- `C06_pred_spellings_string` on it: `a/[0+1][k='1']/f` and `a/[0+1]/k[text()='1']/../f` -/
+example : ∀ xp ∈ [renderSp .rel deepSteps ++ bracket (['k'] ++ ['='] ++ ['\'', '1', '\'']) ++ slash ++ ['f'],
+                  renderSp .rel deepSteps ++ slash ++ ['k'] ++ bracket (sTextFn ++ ['='] ++ ['\'', '1', '\'']) ++ slash ++ ['.', '.'] ++ slash ++ ['f']],
+    XPath.get 40 deep xp .none = (deep, .ok (.list .n0 [.str ['x'], .str ['y']])) := by
+  intro xp hxp
+  have := (C06_pred_spellings_string .n0 [(['a'], .list .plain [.str ['p'], .list .plain recsList])] .rel deepSteps ['k'] ['f'] ['='] _ _
+    ['1'] .plain recsList .none ⟨plainKey_a, trivial⟩ (by simp [deepSteps]) (by decide) fieldKey_k plainKey_f .eq1 (.sq ['1'])
+    plainLit_1 (by decide) (by decide) 40 (by decide) xp hxp).1
+  rw [show selectWhere ['k'] ['f'] (condTest ['=', '='] (.str ['1'])) recsList = [.str ['x'], .str ['y']] by decide] at this
+  exact this
+
+/-- the same through the model, spellings `a[-1]`, `/a/[last()]`, `//a[1+0]`, text form included -/
+example : (XPath.get 60 deep ['a', '[', '-', '1', ']', '[', 'k', '=', '1', ']', '/', 'f'] .none).2
+    = .ok (.list .n0 [.str ['x'], .str ['y']]) := by decide +kernel
+example : (XPath.get 60 deep ['/', 'a', '/', '[', 'l', 'a', 's', 't', '(', ')', ']', '/', 'k', '[', 't', 'e', 'x', 't', '(', ')', '=', '1', ']',
+    '/', '.', '.', '/', 'f'] .none).2 = .ok (.list .n0 [.str ['x'], .str ['y']]) := by decide +kernel
+
+/-- outer records whose `t` is a LIST of records or ONE record (hidden list), two levels down -/
+def ordersMixedList : List Val :=
+  [.dict .plain [(['i'], .str ['1']), (['t'], .dict .plain [(['s'], .str ['B']), (['q'], .str ['3'])])],
+   .dict .plain [(['i'], .str ['1']), (['t'], .list .plain [.dict .plain [(['s'], .str ['B']), (['q'], .str ['4'])],
+                                                              .dict .plain [(['s'], .str ['B']), (['q'], .str ['5'])]])],
+   .dict .plain [(['i'], .str ['1']), (['t'], .dict .plain [(['s'], .str ['C']), (['q'], .str ['6'])])],
+   .dict .plain [(['i'], .str ['2']), (['t'], .dict .plain [(['s'], .str ['B']), (['q'], .str ['9'])])],
+   .dict .plain [(['i'], .str ['1']), (['t'], .list .plain [.dict .plain [(['s'], .str ['B']), (['q'], .str ['7'])]])]]
+def ordersMixedKvs : List (Str × Val) := [(['w'], .list .plain [.str ['p'], .list .plain ordersMixedList])]
+def ordersMixed : Val := .dict .n0 ordersMixedKvs
+
+theorem ordersMixed_inner : InnerRecs ['t'] ['s'] ['B'] ordersMixedList := by
+  intro c kvs' x hm hl
+  simp only [ordersMixedList, List.mem_cons, List.not_mem_nil, or_false, Val.dict.injEq] at hm
+  rcases hm with ⟨_, rfl⟩ | ⟨_, rfl⟩ | ⟨_, rfl⟩ | ⟨_, rfl⟩ | ⟨_, rfl⟩ <;>
+    (simp [lookup] at hl; subst hl
+     first
+       | exact Or.inl ⟨_, _, rfl, by decide, by decide⟩
+       | exact Or.inr ⟨_, _, rfl, by decide⟩)
+
+/-- the reference results: a single-record parent contributes the bare value, a list parent its list; under
+`return_lists=False` (`first`) a one-element list parent contributes the bare value too -/
+example : selectChainedG true ['i'] ['t'] (fieldEq ['1']) ['s'] ['q'] (fieldEq ['B']) ordersMixedList
+    = [.str ['3'], .list .n0 [.str ['4'], .str ['5']], .list .n0 [.str ['7']]] := by decide
+example : selectChainedG false ['i'] ['t'] (fieldEq ['1']) ['s'] ['q'] (fieldEq ['B']) ordersMixedList
+    = [.str ['3'], .list .n0 [.str ['4'], .str ['5']], .str ['7']] := by decide
+
+/-- `C06_chained_hidden` on that tree: `//w[1][i=1]/t[s=B]/q` -/
+example : ∃ n, ∀ fuel ≥ n,
+    XPath.get fuel ordersMixed ['/', '/', 'w', '[', '1', ']', '[', 'i', '=', '1', ']', '/', 't', '[', 's', '=', 'B', ']', '/', 'q'] .none
+      = (ordersMixed, .ok (.list .n0 [.str ['3'], .list .n0 [.str ['4'], .str ['5']], .list .n0 [.str ['7']]])) ∧
+    XPath.first fuel ordersMixed ['/', '/', 'w', '[', '1', ']', '[', 'i', '=', '1', ']', '/', 't', '[', 's', '=', 'B', ']', '/', 'q'] .none
+      = (ordersMixed, .ok (.list .n0 [.str ['3'], .list .n0 [.str ['4'], .str ['5']], .str ['7']])) := by
+  obtain ⟨n, h⟩ := C06_chained_hidden .n0 ordersMixedKvs [.key ['w'], .idx 1] ['i'] ['='] _ ['1'] ['1'] ['t'] ['s'] ['='] _ ['B'] ['B']
+    ['q'] .plain ordersMixedList .none ⟨plainKey_w, trivial⟩ (by simp) fieldKey_i .eq1 (.bare _) plainLit_1 plainKey_t fieldKey_s .eq1
+    (.bare _) plainLit_B plainKey_q rfl (by decide) (by decide) ordersMixed_inner
+  refine ⟨n, fun fuel hf => ?_⟩
+  have h1 := (h fuel hf).1
+  have h3 := (h fuel hf).2.2
+  rw [show selectChainedG true ['i'] ['t'] (condTest ['=', '='] (.str ['1'])) ['s'] ['q'] (condTest ['=', '='] (.str ['B'])) ordersMixedList
+      = [.str ['3'], .list .n0 [.str ['4'], .str ['5']], .list .n0 [.str ['7']]] by decide] at h1
+  rw [show selectChainedG false ['i'] ['t'] (condTest ['=', '='] (.str ['1'])) ['s'] ['q'] (condTest ['=', '='] (.str ['B'])) ordersMixedList
+      = [.str ['3'], .list .n0 [.str ['4'], .str ['5']], .str ['7']] by decide] at h3
+  exact ⟨h1, h3⟩
+
+/-- `C06_chained_spellings_string` on it with the spelling `/w[-1]` -/
+def mixedSteps : List StepSp := [.key ['w'], .idx (.neg 1) false]
+example : renderSp .one mixedSteps = ['/', 'w', '[', '-', '1', ']'] := by decide
+example : XPath.get 90 ordersMixed
+    (renderSp .one mixedSteps ++ bracket (['i'] ++ ['='] ++ ['1']) ++ slash ++ ['t'] ++ bracket (['s'] ++ ['='] ++ ['B']) ++ slash ++ ['q']) .none
+      = (ordersMixed, .ok (.list .n0 [.str ['3'], .list .n0 [.str ['4'], .str ['5']], .list .n0 [.str ['7']]])) := by
+  have := (C06_chained_spellings_string .n0 ordersMixedKvs .one mixedSteps ['i'] ['='] _ ['1'] ['1'] ['t'] ['s'] ['='] _ ['B'] ['B']
+    ['q'] .plain ordersMixedList .none ⟨plainKey_w, trivial⟩ (by simp [mixedSteps]) (by decide) fieldKey_i .eq1 (.bare _) plainLit_1
+    plainKey_t fieldKey_s .eq1 (.bare _) plainLit_B plainKey_q (by decide) (by decide) ordersMixed_inner 90 (by decide)).1
+  rw [show selectChainedG true ['i'] ['t'] (condTest ['=', '='] (.str ['1'])) ['s'] ['q'] (condTest ['=', '='] (.str ['B'])) ordersMixedList
+      = [.str ['3'], .list .n0 [.str ['4'], .str ['5']], .list .n0 [.str ['7']]] by decide] at this
+  exact this
+
+/-- `C06_chained_spelled` (token level) on it: `w[-1]`, `[i=1]`, `t[s=B]`, `q`, `return_lists=False` -/
+def mixedToks : List Str := [['w'] ++ bracket (IdxSp.neg 1).text]
+theorem mixed_spelled : Sel3Spells mixedToks ordersMixed [.key ['w'], .idx 1] (.list .plain ordersMixedList) :=
+  .keyIdx ((IdxSp.neg 1).keyIdxTok plainKey_w) plainKey_w rfl (by decide) rfl (.nil _)
+example : ∃ r, findD 90 ordersMixed [] false true
+      (mixedToks ++ [bracket (['i'] ++ ['='] ++ ['1']), ['t'] ++ bracket (['s'] ++ ['='] ++ ['B']), ['q']]) (.at []) false slash
+      = .ok (ordersMixed, r) ∧ r.value = .list .n0 [.str ['3'], .list .n0 [.str ['4'], .str ['5']], .str ['7']] := by
+  obtain ⟨r, hr, hf, hv⟩ := (C06_chained_spelled ordersMixed false mixedToks _ _ ordersMixedList ['i'] ['='] _ ['1'] ['1'] ['t'] ['s']
+    ['='] _ ['B'] ['B'] ['q'] mixed_spelled fieldKey_i .eq1 (.bare _) plainLit_1 plainKey_t fieldKey_s .eq1 (.bare _) plainLit_B
+    plainKey_q (by decide) (by decide) ordersMixed_inner 90 (by decide)).1
+  rw [show selectChainedG false ['i'] ['t'] (condTest ['=', '='] (.str ['1'])) ['s'] ['q'] (condTest ['=', '='] (.str ['B'])) ordersMixedList
+      = [.str ['3'], .list .n0 [.str ['4'], .str ['5']], .str ['7']] by decide] at hf hv
+  exact ⟨r, hr, hv (by simpa using hf)⟩
+
+/-- `C06_chained_hidden_flat`: when every `t` is one record the result is the flat list of the matching ones -/
+def ordersDictsList : List Val :=
+  [.dict .plain [(['i'], .str ['1']), (['t'], .dict .plain [(['s'], .str ['B']), (['q'], .str ['3'])])],
+   .dict .plain [(['i'], .str ['1']), (['t'], .dict .plain [(['s'], .str ['C']), (['q'], .str ['6'])])],
+   .dict .plain [(['i'], .str ['1'])],
+   .dict .plain [(['i'], .str ['1']), (['t'], .dict .plain [(['s'], .str ['B']), (['q'], .str ['8'])])]]
+example : selectChainedG true ['i'] ['t'] (fieldEq ['1']) ['s'] ['q'] (fieldEq ['B']) ordersDictsList = [.str ['3'], .str ['8']] :=
+  (C06_chained_hidden_flat true ['i'] ['t'] _ ['s'] ['q'] _ ordersDictsList (by
+    intro c kvs' x hm hl lc xs
+    simp only [ordersDictsList, List.mem_cons, List.not_mem_nil, or_false, Val.dict.injEq] at hm
+    rcases hm with ⟨_, rfl⟩ | ⟨_, rfl⟩ | ⟨_, rfl⟩ | ⟨_, rfl⟩ <;> (simp [lookup] at hl; try (subst hl; simp)))).trans (by decide)
+
+/-- `C06_chained_first` on `orders` (inner lists): the per-parent selections are `[['3'], ['6','7']]`; `first` returns
+`['3', ['6','7']]` — the one-record parent as the bare value -/
+example : chainedLists ['i'] ['t'] (fieldEq ['2']) ['s'] ['q'] (fieldEq ['B']) ordersList = [[.str ['3']], [.str ['6'], .str ['7']]] := by
+  decide
+theorem orders_inner : InnerLists ['t'] ['s'] ['B'] ordersList := by
+  intro c kvs' x hm hl
+  simp only [ordersList, List.mem_cons, List.not_mem_nil, or_false, Val.dict.injEq] at hm
+  rcases hm with ⟨_, rfl⟩ | ⟨_, rfl⟩ | ⟨_, rfl⟩ | ⟨_, rfl⟩ | ⟨_, rfl⟩ | ⟨_, rfl⟩ <;>
+    (first
+      | (simp [lookup] at hl; done)
+      | (simp [lookup] at hl; subst hl; exact ⟨_, _, rfl, by decide, by decide⟩))
+example : ∃ n, ∀ fuel ≥ n,
+    XPath.first fuel orders ['/', '/', 'o', '[', 'i', '=', '2', ']', '/', 't', '[', 's', '=', 'B', ']', '/', 'q'] .none
+      = (orders, .ok (.list .n0 [.str ['3'], .list .n0 [.str ['6'], .str ['7']]])) := by
+  obtain ⟨n, h⟩ := C06_chained_first .n0 [(['o'], .list .plain ordersList)] [.key ['o']] ['i'] ['='] _ ['2'] ['2'] ['t'] ['s']
+    ['='] _ ['B'] ['B'] ['q'] .plain ordersList .none ⟨⟨by decide, by decide, by decide⟩, trivial⟩ (by simp) fieldKey_i .eq1
+    (.bare _) plainLit_2 plainKey_t fieldKey_s .eq1 (.bare _) plainLit_B plainKey_q rfl (by decide) (by decide) orders_inner
+  refine ⟨n, fun fuel hf => ?_⟩
+  have := h fuel hf
+  rw [show chainedLists ['i'] ['t'] (condTest ['=', '='] (.str ['2'])) ['s'] ['q'] (condTest ['=', '='] (.str ['B'])) ordersList
+      = [[.str ['3']], [.str ['6'], .str ['7']]] by decide] at this
+  exact this
+
+/-- the four cases of `C06_chained_first_cases` through the model: no match, one parent / one record (three levels
+unwrapped), one parent / two records (one level), several parents -/
+example : (XPath.first 80 orders ['o', '[', 'i', '=', '9', ']', '/', 't', '[', 's', '=', 'B', ']', '/', 'q'] (.str ['D'])).2 = .ok (.str ['D']) := by
+  decide +kernel
+example : (XPath.first 80 orders ['o', '[', 'i', '=', '1', ']', '/', 't', '[', 's', '=', 'B', ']', '/', 'q'] .none).2 = .ok (.str ['2']) := by
+  decide +kernel
+example : (XPath.first 80 orders ['o', '[', 'i', '=', '2', ']', '/', 't', '[', 's', '=', 'C', ']', '/', 'q'] .none).2 = .ok (.str ['4']) := by
+  decide +kernel
+example : (XPath.first 80 orders ['o', '[', 'i', '=', '2', ']', '/', 't', '[', 'q', '~', '\'', '\'', ']', '/', 'q'] .none).2
+    = .ok (.list .n0 [.list .n0 [.str ['3'], .str ['4']], .str ['5'], .list .n0 [.str ['6'], .str ['7']]]) := by
+  decide +kernel
+example : firstOf ([[Val.str ['3']]].map single) Val.none = .str ['3'] := (C06_chained_first_cases _ _ _ []).2.1 rfl
+example : firstOf ([[Val.str ['3'], .str ['4']]].map single) Val.none = .list .n0 [.str ['3'], .str ['4']] :=
+  (C06_chained_first_cases _ _ (.str ['3']) _).2.2.1 rfl (by decide)
+
 end N0.C06
